@@ -108,6 +108,9 @@ pub enum COp {
     Default { t: u32, reply: Reply },
     /// Per-request latency of the tower, in virtual milliseconds.
     Latency { t: u32, ms: u32 },
+    /// The subscription at the tower lapses: it answers add_appointment with a subscription error (code 7) until it has
+    /// served a registration.
+    Lapse { t: u32 },
     RetryTower { t: u32 },
     AbandonTower { t: u32 },
     ListTowers,
@@ -144,6 +147,7 @@ impl COp {
             COp::Script { .. } => "script",
             COp::Default { .. } => "default",
             COp::Latency { .. } => "latency",
+            COp::Lapse { .. } => "lapse",
             COp::RetryTower { .. } => "retrytower",
             COp::AbandonTower { .. } => "abandontower",
             COp::ListTowers => "listtowers",
@@ -187,6 +191,10 @@ pub struct FakeTower {
     pub failing_since: Option<u64>,
     /// a registration request got a non-accepting answer (renewal by the retrier may have failed for good)
     pub bad_register_reply: bool,
+    /// the subscription has lapsed: add_appointment is answered with code 7 until a registration has been served
+    pub lapsed: bool,
+    /// the client has been told about the lapse (first code-7 answer of this episode served)
+    pub lapse_told: bool,
 }
 
 pub struct NetState {
@@ -260,10 +268,23 @@ impl Net {
         if endpoint != "register" && matches!(reply, Reply::NotExtending(_)) {
             reply = Reply::Accept;
         }
+        let mut lapsed_answer = false;
+        if endpoint == "add_appointment" && reply == Reply::Accept && st.towers[ti].lapsed {
+            reply = Reply::ApiError(7);
+            lapsed_answer = true;
+        }
         let latency = Duration::from_millis(st.towers[ti].latency_ms as u64);
         {
             let t = &mut st.towers[ti];
-            if reply != Reply::Accept {
+            if lapsed_answer && !t.lapse_told {
+                // From now on the client knows what to do (renew, then re-send): if the tower is otherwise healthy, the
+                // recovery clock for what this made pending starts here, not when the tower last came back.
+                t.lapse_told = true;
+                if t.healthy_since.is_some() || (t.script.is_empty() && t.default == Reply::Accept) {
+                    t.healthy_since = Some(now);
+                }
+            }
+            if reply != Reply::Accept && !lapsed_answer {
                 t.healthy_since = None;
                 if endpoint == "register" {
                     t.bad_register_reply = true;
@@ -273,7 +294,7 @@ impl Net {
                 // first correct answer after trouble
                 t.healthy_since = Some(now);
             }
-            if t.script.is_empty() && t.default == Reply::Accept && reply != Reply::Accept {
+            if t.script.is_empty() && t.default == Reply::Accept && reply != Reply::Accept && !lapsed_answer {
                 // that was the last scripted misbehaviour
                 t.healthy_since = Some(now + latency.as_millis() as u64);
             }
@@ -314,6 +335,7 @@ impl Net {
                                     sig = malformed_sig(*k, &sig);
                                 }
                                 if matches!(r, Reply::Accept) {
+                                    t.lapsed = false;
                                     t.slots = slots;
                                     t.start = start;
                                     t.expiry = expiry;
@@ -630,6 +652,8 @@ pub struct TowerModel {
 }
 
 struct Session<'a> {
+    /// kills that fired at a numbered crash point (inside a durable write), as opposed to kills between operations
+    cp_kills: Arc<AtomicU64>,
     hist: &'a ClientHistory,
     uni: Universe,
     dir: PathBuf,
@@ -728,9 +752,21 @@ impl<'a> Session<'a> {
                         format!("{at}: revocation {} for tower {t} is neither accepted, pending nor invalid on disk", hex::encode(loc)),
                     );
                 } else if n > 1 {
+                    // which two, and whether the client had been killed in the middle of a durable write before: a state
+                    // transition is two commits, and a kill between them is its own (known) finding
+                    let mut clause = String::from("appointment_in_two_states:");
+                    clause.push_str(match (acc, pen, inv) {
+                        (true, true, false) => "accepted+pending",
+                        (false, true, true) => "pending+invalid",
+                        (true, false, true) => "accepted+invalid",
+                        _ => "all_three",
+                    });
+                    if self.cp_kills.load(Ordering::SeqCst) > 0 {
+                        clause.push_str(":after_kill_inside_a_write");
+                    }
                     self.report(
                         "C05",
-                        "appointment_in_two_states",
+                        &clause,
                         format!("{at}: revocation {} for tower {t}: accepted={acc} pending={pen} invalid={inv}", hex::encode(loc)),
                     );
                 }
@@ -1086,6 +1122,8 @@ pub fn run_client(hist: &ClientHistory) -> ClientResult {
             healthy_since: Some(0),
             failing_since: None,
             bad_register_reply: false,
+            lapsed: false,
+            lapse_told: false,
         });
     }
     let net = Arc::new(Net {
@@ -1106,11 +1144,13 @@ pub fn run_client(hist: &ClientHistory) -> ClientResult {
     let counter = Arc::new(AtomicU64::new(0));
     let armed = Arc::new(Mutex::new(hist.crash_at.clone()));
     let killed_flag = Arc::new(AtomicBool::new(false));
+    let cp_kills = Arc::new(AtomicU64::new(0));
     {
         let counter = counter.clone();
         let armed = armed.clone();
         let killed = killed_flag.clone();
         let net2 = net.clone();
+        let cp_kills2 = cp_kills.clone();
         teos_common::verif::set_crash_callback(Some(Arc::new(move |_site: &'static str| {
             if killed.load(Ordering::SeqCst) {
                 // the process is dead: nothing durable may happen any more
@@ -1120,6 +1160,7 @@ pub fn run_client(hist: &ClientHistory) -> ClientResult {
             let mut a = armed.lock().unwrap_or_else(|e| e.into_inner());
             if a.first() == Some(&n) {
                 a.remove(0);
+                cp_kills2.fetch_add(1, Ordering::SeqCst);
                 killed.store(true, Ordering::SeqCst);
                 net2.dead.store(true, Ordering::SeqCst);
                 std::panic::panic_any(CrashSignal);
@@ -1150,6 +1191,7 @@ pub fn run_client(hist: &ClientHistory) -> ClientResult {
         clock_ms: 0,
         log_digest: 0,
         rate_checked_upto: 0,
+        cp_kills: cp_kills.clone(),
     };
 
     let mut next = 0usize;
@@ -1366,6 +1408,19 @@ impl<'a> Session<'a> {
                 let log_before = self.net.st.lock().unwrap_or_else(|e| e.into_inner()).log.len();
                 let r = ld.call("registertower", json!([format!("{}@tower{}:9814", id, t)]), 120).await;
                 if killed.load(Ordering::SeqCst) {
+                    // killed inside the command: the registration took effect iff the tower's row is (newly) in the database
+                    let now_there = read_client_db(&self.dir.join("watchtowers_db.sql3"))
+                        .map(|db| db.towers.contains_key(&id.to_vec()))
+                        .unwrap_or(false);
+                    let was_there = before.as_ref().map(|db| db.towers.contains_key(&id.to_vec())).unwrap_or(false);
+                    if now_there && !was_there {
+                        let tm = &mut self.towers[*t as usize];
+                        tm.registered = true;
+                        if tm.abandoned {
+                            tm.abandoned = false;
+                            tm.misbehaved_at = None;
+                        }
+                    }
                     return true;
                 }
                 let served: Option<Reply> = {
@@ -1471,6 +1526,17 @@ impl<'a> Session<'a> {
                     tw.latency_ms = *ms;
                 }
             }
+            COp::Lapse { t } => {
+                let mut st = self.net.st.lock().unwrap_or_else(|e| e.into_inner());
+                if let Some(tw) = st.towers.get_mut(*t as usize) {
+                    if tw.registrations > 0 {
+                        tw.lapsed = true;
+                        tw.lapse_told = false;
+                    }
+                }
+                drop(st);
+                self.probe("subscription_lapsed_at_tower");
+            }
             COp::RetryTower { t } => {
                 let id = self.tower_id(*t);
                 let before = ld.call("listtowers", json!([]), 30).await;
@@ -1503,10 +1569,14 @@ impl<'a> Session<'a> {
             COp::AbandonTower { t } => {
                 let id = self.tower_id(*t);
                 let r = ld.call("abandontower", json!([id.to_string()]), 30).await;
-                if killed.load(Ordering::SeqCst) {
-                    return true;
-                }
-                if r.as_ref().map(|v| v.get("result").is_some()).unwrap_or(false) {
+                let was_killed = killed.load(Ordering::SeqCst);
+                // killed inside the command: it took effect iff the tower's row is gone from the database
+                let applied_before_kill = was_killed
+                    && read_client_db(&self.dir.join("watchtowers_db.sql3"))
+                        .map(|db| !db.towers.contains_key(&id.to_vec()))
+                        .unwrap_or(false)
+                    && self.towers[*t as usize].registered;
+                if applied_before_kill || (!was_killed && r.as_ref().map(|v| v.get("result").is_some()).unwrap_or(false)) {
                     self.towers[*t as usize].abandoned = true;
                     self.towers[*t as usize].registered = false;
                     self.towers[*t as usize].misbehaved_at = None;
@@ -1516,6 +1586,9 @@ impl<'a> Session<'a> {
                         set.remove(t);
                     }
                     self.probe("tower_abandoned");
+                }
+                if was_killed {
+                    return true;
                 }
                 let v = ld.call("listtowers", json!([]), 30).await;
                 self.check_store(&format!("after abandontower {t}"), v.as_ref());
